@@ -312,7 +312,10 @@ def enc_brackets(tb, rng, gf=False, emptyroot=None, disco=False, emptypos=False)
         out.append(res + "\n")
         if not disco and rng.random() < 0.2:
             out.append("\n")
-    return "".join(out)
+    text = "".join(out)
+    if text.endswith("\n") and not text.endswith("\n\n") and rng.random() < 0.12:
+        text = text[:-1]               # the last line of a file need not end in a newline
+    return text
 
 
 def dec_brackets(text, disco=False):
@@ -394,7 +397,7 @@ def dec_brackets(text, disco=False):
             pos[0] += 1
             end = text.find("\n", pos[0])
             if end < 0:
-                raise DecodeError("discobracket line not terminated")
+                end = n                # last line of the file without a final newline
             words = text[pos[0]:end].split(" ")
             pos[0] = end + 1
             idxs = []
